@@ -278,12 +278,206 @@ Proof.
   eapply acked_ok_spec; eauto.
 Qed.
 
-Theorem v1_acker_model_monitor_ok :
-  forall fx (q : list amsg) (script : list areply) o,
-    acker_run fx q script = V1Ok o -> acker_monitor q script o = true.
+(* ---- the feeding schedule ---- *)
+
+Lemma acker_worker_step fx m q acks script :
+  acker_worker fx (m :: q) acks script =
+  match acker_step fx m acks script with
+  | StPanic => V1Panic SiteAcks0
+  | StStop s t => V1Ok (s :: all_nacked q, t)
+  | StCont s a sc => acons s (acker_worker fx q a sc)
+  end.
 Proof.
-  intros fx q script [st t] H. destruct (acker_worker_acked_ok _ _ _ _ _ _ H) as [Hok Ht].
-  simpl in Hok. unfold acker_monitor. rewrite Ht, Hok. reflexivity.
+  unfold acker_step. simpl acker_worker.
+  destruct (am_filtered m); [destruct (am_ack_err m); reflexivity|].
+  destruct (fetch acks script) as [a1 s1| |]; try reflexivity.
+  destruct a1 as [|[p e] rest]; [destruct fx; reflexivity|].
+  destruct (negb (v1key_eqb (am_pos m) p)); [reflexivity|].
+  destruct e; [destruct (am_nack_err m)|destruct (am_ack_err m)]; reflexivity.
+Qed.
+
+(* what one step does to the ack stream and which statuses it hands out *)
+Lemma acker_step_cont fx m acks script s a sc :
+  acker_step fx m acks script = StCont s a sc ->
+  s <> SOpen /\
+  (if am_filtered m then a ++ ack_stream sc = acks ++ ack_stream script
+   else exists x, acks ++ ack_stream script = x :: (a ++ ack_stream sc)).
+Proof.
+  unfold acker_step. destruct (am_filtered m).
+  - destruct (am_ack_err m); [discriminate|]. intros H. inversion H. subst. split; [discriminate|reflexivity].
+  - destruct (fetch acks script) as [a1 s1| |] eqn:Hf; try discriminate.
+    rewrite (fetch_stream _ _ _ _ Hf).
+    destruct a1 as [|[p e] rest]; [destruct fx; discriminate|].
+    destruct (negb (v1key_eqb (am_pos m) p)); [discriminate|].
+    destruct e; [destruct (am_nack_err m)|destruct (am_ack_err m)]; try discriminate;
+      intros H; inversion H; subst; (split; [discriminate|eexists; reflexivity]).
+Qed.
+
+Lemma acker_step_stop fx m acks script s t :
+  acker_step fx m acks script = StStop s t ->
+  s <> SOpen /\ t <> ATOk /\
+  (t = ATErr true -> am_filtered m = false /\ acks = [] /\ script = []).
+Proof.
+  unfold acker_step. destruct (am_filtered m).
+  - destruct (am_ack_err m); [|discriminate]. intros H. inversion H. subst.
+    repeat split; try discriminate.
+  - destruct (fetch acks script) as [a1 s1| |] eqn:Hf.
+    + destruct a1 as [|[p e] rest].
+      { destruct fx; [|discriminate]. intros H. inversion H. subst. repeat split; discriminate. }
+      destruct (negb (v1key_eqb (am_pos m) p)).
+      { intros H. inversion H. subst. repeat split; discriminate. }
+      destruct e; [destruct (am_nack_err m)|destruct (am_ack_err m)]; try discriminate;
+        intros H; inversion H; subst; repeat split; discriminate.
+    + intros H. inversion H. subst. repeat split; discriminate.
+    + intros H. inversion H. subst. split; [discriminate|]. split; [discriminate|]. intros _.
+      unfold fetch in Hf. destruct acks; [|discriminate]. destruct script as [|[l|] sc]; try discriminate.
+      auto.
+Qed.
+
+(* schedule independence.  Whatever the grouping of the messages, the node does to them what it
+   does when they are all queued before the first reply: the same end of Run, the same acks and
+   nacks; only a message that was never handed over is open instead of nacked by teardown. *)
+Definition relax (a b : mstat) : Prop := a = b \/ (a = SOpen /\ b = SNacked).
+
+Definition same_run (r r' : v1res aout) : Prop :=
+  match r, r' with
+  | V1Panic _, V1Panic _ => True
+  | V1Ok (st, t), V1Ok (st', t') => t = t' /\ Forall2 relax st st' /\ (t = ATOk -> st = st')
+  | _, _ => False
+  end.
+
+Lemma Forall2_relax_refl st : Forall2 relax st st.
+Proof. induction st; constructor; auto. left. reflexivity. Qed.
+
+Lemma same_run_acons s r r' : same_run r r' -> same_run (acons s r) (acons s r').
+Proof.
+  destruct r as [[st t]|x], r' as [[st' t']|x']; simpl; auto.
+  intros [-> [F E]]. split; [reflexivity|]. split.
+  - constructor; [left; reflexivity|exact F].
+  - intros H. rewrite (E H). reflexivity.
+Qed.
+
+Lemma feed_worker_flat fx und k :
+  (forall a s, same_run (k a s) (acker_worker fx und a s)) ->
+  forall q acks script,
+    same_run (feed_worker fx q und k acks script) (acker_worker fx (q ++ und) acks script).
+Proof.
+  intros Hk. induction q as [|m q IH]; intros acks script.
+  - apply Hk.
+  - change ((m :: q) ++ und) with (m :: (q ++ und)). rewrite acker_worker_step. simpl feed_worker.
+    destruct (acker_step fx m acks script) as [s a sc|s t|] eqn:Hs.
+    + apply same_run_acons. apply IH.
+    + destruct (acker_step_stop _ _ _ _ _ _ Hs) as [_ [Ht _]]. simpl.
+      split; [reflexivity|]. split; [|intros E; contradiction].
+      constructor; [left; reflexivity|]. unfold all_nacked, all_open. rewrite map_app.
+      apply Forall2_app; [apply Forall2_relax_refl|].
+      clear. induction und; simpl; constructor; auto. right. split; reflexivity.
+    + simpl. exact I.
+Qed.
+
+Theorem v1_acker_schedule_independent :
+  forall fx (ph : list (list amsg)) acks script,
+    same_run (acker_feed fx ph acks script) (acker_worker fx (concat ph) acks script).
+Proof.
+  intros fx. induction ph as [|q rest IH]; intros acks script.
+  - simpl. split; [reflexivity|]. split; [constructor|reflexivity].
+  - simpl. apply feed_worker_flat. exact IH.
+Qed.
+
+(* the node does not panic on the repaired tree, whatever the schedule *)
+Theorem v1_acker_feed_no_panic_repaired :
+  forall (ph : list (list amsg)) (script : list areply), exists o, acker_feed_run true ph script = V1Ok o.
+Proof.
+  intros ph script. unfold acker_feed_run.
+  pose proof (v1_acker_schedule_independent true ph [] script) as H.
+  destruct (acker_worker_no_panic_repaired (concat ph) [] script) as [o' Ho']. rewrite Ho' in H.
+  destruct (acker_feed true ph [] script) as [o|x]; [eauto|]. destruct o'. simpl in H. contradiction.
+Qed.
+
+Lemma acked_ok_relax :
+  forall q st st' strm, Forall2 relax st st' -> acked_ok q st' strm = true -> acked_ok q st strm = true.
+Proof.
+  induction q as [|m q IH]; intros st st' strm F H; [reflexivity|].
+  destruct F as [|s s' st st' R F]; [reflexivity|]. simpl in *.
+  destruct (am_filtered m); [eapply IH; eauto|].
+  assert (Hs : s = SAcked -> s' = SAcked).
+  { destruct R as [->|[-> _]]; [auto|discriminate]. }
+  destruct strm as [|a strm]; apply andb_true_iff in H; destruct H as [H1 H2]; apply andb_true_iff; split;
+    try (eapply IH; eauto).
+  - destruct s; auto. rewrite (Hs eq_refl) in H1. exact H1.
+  - destruct s; auto. rewrite (Hs eq_refl) in H1. exact H1.
+Qed.
+
+(* a message the node acked received, in order, a positive ack carrying its own position -
+   whatever the schedule *)
+Theorem v1_acker_feed_acked_confirmed :
+  forall fx (ph : list (list amsg)) (script : list areply) st t i m,
+    acker_feed_run fx ph script = V1Ok (st, t) ->
+    nth_error (concat ph) i = Some m -> am_filtered m = false -> nth_error st i = Some SAcked ->
+    nth_error (ack_stream script) (unfiltered_before (concat ph) i) = Some (am_pos m, false).
+Proof.
+  intros fx ph script st t i m H Hq Hfl Hst. unfold acker_feed_run in H.
+  pose proof (v1_acker_schedule_independent fx ph [] script) as S. rewrite H in S.
+  destruct (acker_worker fx (concat ph) [] script) as [[st' t']|x] eqn:Hw; [|contradiction].
+  destruct S as [_ [F _]].
+  destruct (acker_worker_acked_ok _ _ _ _ _ _ Hw) as [Hok _]. simpl in Hok.
+  apply (acked_ok_spec (concat ph) st (ack_stream script) (acked_ok_relax _ _ _ _ F Hok) i m Hq Hfl Hst).
+Qed.
+
+(* no wedge: the model waits for the destination only while the destination owes an ack *)
+Lemma delivered_unf_nacked_open q und :
+  delivered_unf (q ++ und) (all_nacked q ++ all_open und) = delivered_unf q (all_nacked q).
+Proof.
+  induction q as [|m q IH]; simpl.
+  - induction und as [|u und IHu]; simpl; [reflexivity|]. destruct (am_filtered u); simpl; exact IHu.
+  - rewrite IH. reflexivity.
+Qed.
+
+Lemma feed_worker_owes fx und k :
+  (forall a s st, k a s = V1Ok (st, ATErr true) -> length (a ++ ack_stream s) < delivered_unf und st) ->
+  forall q acks script st,
+    feed_worker fx q und k acks script = V1Ok (st, ATErr true) ->
+    length (acks ++ ack_stream script) < delivered_unf (q ++ und) st.
+Proof.
+  intros Hk. induction q as [|m q IH]; intros acks script st; simpl feed_worker.
+  - apply Hk.
+  - destruct (acker_step fx m acks script) as [s a sc|s t|] eqn:Hs; [| |discriminate].
+    + destruct (acker_step_cont _ _ _ _ _ _ _ Hs) as [Hso Hstr].
+      destruct (feed_worker fx q und k a sc) as [[st' t']|x] eqn:Hw; simpl; [|discriminate].
+      intros H. inversion H. subst. specialize (IH _ _ _ Hw). simpl.
+      destruct (am_filtered m).
+      * rewrite <- Hstr. simpl. exact IH.
+      * destruct Hstr as [x ->]. simpl. destruct s; [contradiction| |]; simpl; lia.
+    + intros H. inversion H. subst.
+      destruct (acker_step_stop _ _ _ _ _ _ Hs) as [Hso [_ Hex]].
+      destruct (Hex eq_refl) as [Hfl [-> ->]]. simpl. rewrite Hfl.
+      destruct s; [contradiction| |]; simpl; lia.
+Qed.
+
+Theorem v1_acker_waits_only_if_owed :
+  forall fx (ph : list (list amsg)) (script : list areply) st,
+    acker_feed_run fx ph script = V1Ok (st, ATErr true) ->
+    length (ack_stream script) < delivered_unf (concat ph) st.
+Proof.
+  intros fx ph script st. unfold acker_feed_run.
+  change (ack_stream script) with ([] ++ ack_stream script). generalize (@nil dack) as acks.
+  revert script st. induction ph as [|q rest IH]; intros script st acks; simpl.
+  - discriminate.
+  - apply feed_worker_owes. intros a s st0. apply IH.
+Qed.
+
+Theorem v1_acker_model_monitor_ok :
+  forall fx (ph : list (list amsg)) (script : list areply) o,
+    acker_feed_run fx ph script = V1Ok o -> acker_monitor (concat ph) script o = true.
+Proof.
+  intros fx ph script [st t] H. unfold acker_monitor.
+  pose proof (v1_acker_schedule_independent fx ph [] script) as S. unfold acker_feed_run in H. rewrite H in S.
+  destruct (acker_worker fx (concat ph) [] script) as [[st' t']|x] eqn:Hw; [|contradiction].
+  destruct S as [-> [F _]].
+  destruct (acker_worker_acked_ok _ _ _ _ _ _ Hw) as [Hok Ht]. simpl in Hok.
+  rewrite Ht, (acked_ok_relax _ _ _ _ F Hok). simpl.
+  unfold wedge_ok. destruct t' as [|[|]| |]; try reflexivity.
+  apply Nat.ltb_lt. apply (v1_acker_waits_only_if_owed fx). exact H.
 Qed.
 
 (* ====================================================================================== *)
@@ -333,6 +527,10 @@ Print Assumptions v1_acker_empty_reply_refuted.
 Print Assumptions v1_acker_no_panic_nonempty.
 Print Assumptions v1_acker_no_panic_repaired.
 Print Assumptions v1_acker_acked_confirmed.
+Print Assumptions v1_acker_schedule_independent.
+Print Assumptions v1_acker_feed_no_panic_repaired.
+Print Assumptions v1_acker_feed_acked_confirmed.
+Print Assumptions v1_acker_waits_only_if_owed.
 Print Assumptions v1_acker_model_monitor_ok.
 Print Assumptions sandbox_total.
 Print Assumptions sandbox_model_monitor_ok.
